@@ -11,6 +11,7 @@ A 2-D array is its list of rows; "shape h×w" = `a.length = h` and every row has
 -/
 import Model.Layout
 import Proofs.Layout
+import Proofs.LayoutGlue
 
 open Model
 
@@ -323,6 +324,147 @@ theorem front1d_content (arr : List α) (r : R1) (hr : Spec.R1.Valid r) (a b : I
   have e2 : (r.x0 + b).toNat = min r.x1.toNat (r.x0.toNat + b.toNat) := by omega
   rw [e1, e2]
 
+/-! ### the `Layout2D` compositions (autoarray/layout/layout.py) -/
+
+/-- (L1) `Layout2D.rotated_from_roe_corner`: if every present region lies inside the `h×w` frame the
+    call succeeds for each of the four corners; the layout records the corner and the shape; `None`
+    regions stay `None`; every present region becomes a valid region inside the frame that slices,
+    from the array brought to the layout's orientation (`original_orientation_from`), exactly the
+    rotated content of the original region — so `extract_parallel_overscan_array_2d_from` /
+    `extract_serial_overscan_array_from` on the rotated array return the rotated overscans. -/
+theorem layout_rotated_slices_rotated_content (c : Corner) (a : List (List α)) (h w : Nat)
+    (po sp so : Option R2) (ha : a.length = h) (hrows : ∀ row ∈ a, row.length = w)
+    (hpo : Spec.OptInside h w po) (hsp : Spec.OptInside h w sp) (hso : Spec.OptInside h w so) :
+    ∃ L, Impl.layoutRotatedFromRoeCorner c h w po sp so = some L
+      ∧ L.roe = c ∧ L.h = h ∧ L.w = w
+      ∧ L.originalOrientationFrom a = Impl.rotateArray c a
+      ∧ Spec.RegionRotated c h w a po L.parallelOverscan
+      ∧ Spec.RegionRotated c h w a sp L.serialPrescan
+      ∧ Spec.RegionRotated c h w a so L.serialOverscan
+      ∧ L.extractParallelOverscan (L.originalOrientationFrom a)
+          = po.map (fun r => Impl.rotateArray c (Impl.slice2d r a))
+      ∧ L.extractSerialOverscan (L.originalOrientationFrom a)
+          = so.map (fun r => Impl.rotateArray c (Impl.slice2d r a)) := by
+  obtain ⟨e1, r1, _⟩ := optRegion_rotate c a h w po ha hrows hpo
+  obtain ⟨e2, r2, _⟩ := optRegion_rotate c a h w sp ha hrows hsp
+  obtain ⟨e3, r3, _⟩ := optRegion_rotate c a h w so ha hrows hso
+  refine ⟨⟨h, w, c, po.map fun r => reflect r h w c, sp.map fun r => reflect r h w c,
+    so.map fun r => reflect r h w c⟩, ?_, rfl, rfl, rfl, rfl, r1, r2, r3, ?_, ?_⟩
+  · unfold Impl.layoutRotatedFromRoeCorner
+    rw [e1, e2, e3]; rfl
+  · cases po with
+    | none => rfl
+    | some r =>
+      simp only [Impl.Layout2D.extractParallelOverscan, Impl.Layout2D.originalOrientationFrom,
+        Option.map_some]
+      exact congrArg some r1.2
+  · cases so with
+    | none => rfl
+    | some r =>
+      simp only [Impl.Layout2D.extractSerialOverscan, Impl.Layout2D.originalOrientationFrom,
+        Option.map_some]
+      exact congrArg some r3.2
+
+/-- (L2) `Layout2D.new_rotated_from`: same statement for an existing layout (regions rotated with
+    the layout's own `shape_2d`, corner replaced). -/
+theorem layout_new_rotated_slices_rotated_content (l : Impl.Layout2D) (c : Corner) (a : List (List α))
+    (ha : a.length = l.h) (hrows : ∀ row ∈ a, row.length = l.w)
+    (hpo : Spec.OptInside l.h l.w l.parallelOverscan) (hsp : Spec.OptInside l.h l.w l.serialPrescan)
+    (hso : Spec.OptInside l.h l.w l.serialOverscan) :
+    ∃ L, l.newRotatedFrom c = some L ∧ L.roe = c ∧ L.h = l.h ∧ L.w = l.w
+      ∧ Spec.RegionRotated c l.h l.w a l.parallelOverscan L.parallelOverscan
+      ∧ Spec.RegionRotated c l.h l.w a l.serialPrescan L.serialPrescan
+      ∧ Spec.RegionRotated c l.h l.w a l.serialOverscan L.serialOverscan := by
+  obtain ⟨L, h1, h2, h3, h4, _, h6, h7, h8, _⟩ :=
+    layout_rotated_slices_rotated_content c a l.h l.w l.parallelOverscan l.serialPrescan l.serialOverscan
+      ha hrows hpo hsp hso
+  exact ⟨L, h1, h2, h3, h4, h6, h7, h8⟩
+
+/-- (L3) rotating a layout twice for the same corner restores every region (and the shape); the
+    recorded corner is the one rotated for. -/
+theorem layout_rotated_twice (l : Impl.Layout2D) (c : Corner)
+    (hpo : Spec.OptInside l.h l.w l.parallelOverscan) (hsp : Spec.OptInside l.h l.w l.serialPrescan)
+    (hso : Spec.OptInside l.h l.w l.serialOverscan) :
+    (l.newRotatedFrom c).bind (fun l' => l'.newRotatedFrom c) = some { l with roe := c } := by
+  obtain ⟨e1, i1⟩ := optRegion_rotate' c l.h l.w l.parallelOverscan hpo
+  obtain ⟨e2, i2⟩ := optRegion_rotate' c l.h l.w l.serialPrescan hsp
+  obtain ⟨e3, i3⟩ := optRegion_rotate' c l.h l.w l.serialOverscan hso
+  obtain ⟨f1, _⟩ := optRegion_rotate' c l.h l.w _ i1
+  obtain ⟨f2, _⟩ := optRegion_rotate' c l.h l.w _ i2
+  obtain ⟨f3, _⟩ := optRegion_rotate' c l.h l.w _ i3
+  unfold Impl.Layout2D.newRotatedFrom Impl.layoutRotatedFromRoeCorner
+  rw [e1, e2, e3]
+  simp only [Option.bind_some]
+  rw [f1, f2, f3]
+  simp only [Option.bind_some, map_reflect_reflect]
+
+/-- (L4) `Layout2D.layout_extracted_from(window)`: for valid regions and a valid window the call
+    never raises, keeps corner and shape, keeps `None` regions `None`, and every present region is
+    afterwards absent iff it does not overlap the window and otherwise is the overlap in window
+    coordinates, addressing inside the extracted window exactly the overlap's content. -/
+theorem layout_extracted_regions (l : Impl.Layout2D) (e : R2) (he : Spec.R2.Valid e)
+    (hpo : Spec.OptValid l.parallelOverscan) (hsp : Spec.OptValid l.serialPrescan)
+    (hso : Spec.OptValid l.serialOverscan) :
+    ∃ L, l.extractedFrom e = some L ∧ L.roe = l.roe ∧ L.h = l.h ∧ L.w = l.w
+      ∧ Spec.RegionExtracted e l.parallelOverscan L.parallelOverscan
+      ∧ Spec.RegionExtracted e l.serialPrescan L.serialPrescan
+      ∧ Spec.RegionExtracted e l.serialOverscan L.serialOverscan := by
+  obtain ⟨o1, e1, r1⟩ := optAfterExtraction_spec e l.parallelOverscan he hpo
+  obtain ⟨o2, e2, r2⟩ := optAfterExtraction_spec e l.serialPrescan he hsp
+  obtain ⟨o3, e3, r3⟩ := optAfterExtraction_spec e l.serialOverscan he hso
+  refine ⟨⟨l.h, l.w, l.roe, o1, o2, o3⟩, ?_, rfl, rfl, rfl, r1, r2, r3⟩
+  unfold Impl.Layout2D.extractedFrom
+  rw [e1, e2, e3]; rfl
+
+/-- (L5) `Array2D.original_orientation` (header corner `c`) undoes the rotation for `c`, and so does
+    `Layout2D.original_orientation_from` of a layout recorded for `c`: array ↦ rotated ↦ original. -/
+theorem original_orientation_undoes_rotation (c : Corner) (a : List (List α)) (l : Impl.Layout2D)
+    (hl : l.roe = c) :
+    Impl.arrayOriginalOrientation c (Impl.rotateArray c a) = a
+    ∧ l.originalOrientationFrom (Impl.rotateArray c a) = a
+    ∧ Impl.rotateArray c (Impl.arrayOriginalOrientation c a) = a := by
+  refine ⟨Model.rotateArray_twice c a, ?_, Model.rotateArray_twice c a⟩
+  unfold Impl.Layout2D.originalOrientationFrom
+  rw [hl]
+  exact Model.rotateArray_twice c a
+
+/-- (L6) `Layout2D.__init__` with tuple regions accepts exactly the layouts all of whose present
+    regions are valid (non-negative, non-empty), and stores them unchanged. -/
+theorem layout_new_iff_valid (h w : Nat) (roe : Corner) (po sp so : Option R2) :
+    (Spec.OptValid po ∧ Spec.OptValid sp ∧ Spec.OptValid so →
+        Impl.layoutNew h w roe po sp so = some ⟨h, w, roe, po, sp, so⟩)
+    ∧ (¬(Spec.OptValid po ∧ Spec.OptValid sp ∧ Spec.OptValid so) →
+        Impl.layoutNew h w roe po sp so = none) := by
+  have key : ∀ o : Option R2, (Spec.OptValid o → Impl.optRegion Impl.region2dNew o = some o)
+      ∧ (¬Spec.OptValid o → Impl.optRegion Impl.region2dNew o = none) := by
+    intro o
+    cases o with
+    | none => exact ⟨fun _ => rfl, fun h => absurd trivial h⟩
+    | some r =>
+      constructor
+      · intro hv
+        have hv' : Spec.R2.Valid r := hv
+        unfold Spec.R2.Valid at hv'
+        simp only [Impl.optRegion, region2dNew_eq_some hv', Option.map_some]
+      · intro hv
+        have hv' : ¬Spec.R2.Valid r := hv
+        unfold Spec.R2.Valid at hv'
+        simp only [Impl.optRegion, region2dNew_eq_none hv', Option.map_none]
+  constructor
+  · rintro ⟨h1, h2, h3⟩
+    unfold Impl.layoutNew
+    rw [(key po).1 h1, (key sp).1 h2, (key so).1 h3]; rfl
+  · intro hn
+    unfold Impl.layoutNew
+    by_cases h1 : Spec.OptValid po
+    · rw [(key po).1 h1]
+      by_cases h2 : Spec.OptValid sp
+      · rw [(key sp).1 h2]
+        have h3 : ¬Spec.OptValid so := fun h3 => hn ⟨h1, h2, h3⟩
+        rw [(key so).2 h3]; rfl
+      · rw [(key sp).2 h2]; rfl
+    · rw [(key po).2 h1]; rfl
+
 /-! ### non-vacuity: concrete instances meeting every hypothesis above -/
 example :
     let a : List (List Nat) := [[1, 2, 3, 4], [5, 6, 7, 8], [9, 10, 11, 12]]
@@ -339,6 +481,23 @@ example :
     ∧ Impl.serialFront r (2, 1) = none
     ∧ Impl.region2dNew ⟨0, 2, -1, 4⟩ = none := by
   refine ⟨by unfold Spec.R2.Inside; decide, ?_⟩
+  decide
+
+/-- Layout2D, concretely (3×4 frame, corner (0,1), one absent region): the rotated layout, its
+    extraction by a window that clips one region and misses another, and the double rotation. -/
+example :
+    let po : Option R2 := some ⟨0, 2, 1, 4⟩
+    let so : Option R2 := some ⟨2, 3, 0, 1⟩
+    Spec.OptInside 3 4 po ∧ Spec.OptInside 3 4 so ∧ Spec.OptInside 3 4 none
+    ∧ Impl.layoutRotatedFromRoeCorner .c01 3 4 po none so
+        = some ⟨3, 4, .c01, some ⟨1, 3, 0, 3⟩, none, some ⟨0, 1, 3, 4⟩⟩
+    ∧ (Impl.layoutRotatedFromRoeCorner .c01 3 4 po none so).bind (fun l => l.extractedFrom ⟨1, 3, 2, 4⟩)
+        = some ⟨3, 4, .c01, some ⟨0, 2, 0, 1⟩, none, none⟩
+    ∧ ((Impl.layoutRotatedFromRoeCorner .c01 3 4 po none so).bind fun l => l.newRotatedFrom .c01)
+        = some ⟨3, 4, .c01, po, none, so⟩
+    ∧ Impl.layoutNew 3 4 .c10 (some ⟨0, 2, 4, 4⟩) none none = none := by
+  refine ⟨by unfold Spec.OptInside Spec.R2.Inside; decide, by unfold Spec.OptInside Spec.R2.Inside; decide,
+    trivial, ?_⟩
   decide
 
 end C19
